@@ -69,8 +69,10 @@ pub fn run_lines<F: FnMut(&[&str]) -> String>(mut f: F) {
             last_flush = std::time::Instant::now();
         }
         started.store(t0.elapsed().as_millis() as u64 + 1, Ordering::SeqCst);
+        let _ = simquic::take_lost_wakeups();
         let r = catch_unwind(AssertUnwindSafe(|| f(&ws)));
         started.store(0, Ordering::SeqCst);
+        let lost = simquic::take_lost_wakeups();
         let s = match r {
             Ok(s) => s,
             Err(e) => {
@@ -84,7 +86,12 @@ pub fn run_lines<F: FnMut(&[&str]) -> String>(mut f: F) {
                 format!("panic {}", msg.replace('\n', " "))
             }
         };
-        writeln!(out, "{}", s).unwrap();
+        if lost > 0 {
+            // only with H3V_LOSTWAKE=1: some task answered Pending without leaving its waker anywhere
+            writeln!(out, "{} LOST-WAKEUP", s).unwrap();
+        } else {
+            writeln!(out, "{}", s).unwrap();
+        }
     }
     out.flush().unwrap();
 }
